@@ -4,10 +4,14 @@
      - the bodies of calibrate_model_parameter (+ its inner calibration_fun) and run_default_calibration translated statement
        by statement into a program over the heap operations of Model/ParamsHeap.v: gen_calibration_fun,
        gen_calibrate_model_parameter, gen_run_default_calibration.
-   Proved here: the generated program IS the hand-written heap model of Model/Params.v (so every statement of
-   C20_calibration_spec_partial holds of the generated definitions), and for every class of the generated table the default
-   calibration MUST SUCCEED on a constructed object whenever the root finder stays inside the table's interval, returning
-   exactly the object the constructor builds from the final values. *)
+   Wave 7 (audit 4, B3): the program now contains the two raises the earlier one could not produce -- the exponential model's
+   constructor refusing the parameters (op_model, class component model_ok) and brentq's own ValueError when the objective has the
+   same strict sign at both ends (op_brentq_ab: f(a), f(b), zero end, sign test, then the trial values).
+   Proved here: the generated program IS the hand-written guarded heap model of Model/ParamsHeap.v (CalibrationG); whenever it returns,
+   the unguarded model of Model/Params.v returns the same heap on the trial list brentq evaluated (so every statement of
+   C20_calibration_spec_partial holds of what the generated program returns); and for every class of the generated table the default
+   calibration of a constructed object RETURNS when none of the modelled raises occurs (hypothesis by hypothesis) and RAISES in each
+   of the modelled cases. *)
 From Coq Require Import ZArith QArith Qabs Bool List Lia Lqa.
 From RV Require Import Base.QB Gen.GenC20Params Model.Params Model.ParamsHeap Gen.GenC20Calib Proofs.C20_Params.
 Import ListNotations.
@@ -19,59 +23,206 @@ Section GenEqHand.
   Variable initialisation : Rec -> outcome Rec.
   Variable price : Rec -> Q.
   Variable dflt : Rec.
+  Variable model_ok : Rec -> bool.
   Notation load := (load Rec dflt).
   Notation store := (store Rec).
-  Notation g_fun := (gen_calibration_fun Rec Field set initialisation price dflt).
-  Notation g_cal := (gen_calibrate_model_parameter Rec Field set initialisation price dflt).
-  Notation g_dfl := (gen_run_default_calibration Rec Field set initialisation price dflt).
-  Notation h_fun := (calibration_fun Rec Field set initialisation price dflt).
-  Notation h_trials := (run_trials Rec Field set initialisation price dflt).
-  Notation h_cal := (calibrate_model_parameter Rec Field set initialisation price dflt).
-  Notation h_dfl := (run_default_calibration Rec Field set initialisation price dflt).
+  Notation assign_init := (assign_init Rec Field set initialisation).
+  Notation g_fun := (gen_calibration_fun Rec Field set initialisation price dflt model_ok).
+  Notation g_cal := (gen_calibrate_model_parameter Rec Field set initialisation price dflt model_ok).
+  Notation g_dfl := (gen_run_default_calibration Rec Field set initialisation price dflt model_ok).
+  Notation h_fun := (calibration_fun_g Rec Field set initialisation price dflt model_ok).
+  Notation h_trials := (run_trials_g Rec Field set initialisation price dflt model_ok).
+  Notation h_cal := (calibrate_model_parameter_g Rec Field set initialisation price dflt model_ok).
+  Notation h_dfl := (run_default_calibration_g Rec Field set initialisation price dflt model_ok).
+  (* the model of Model/Params.v, which has neither the constructor guard nor brentq's own ValueError *)
+  Notation o_fun := (calibration_fun Rec Field set initialisation price dflt).
+  Notation o_trials := (run_trials Rec Field set initialisation price dflt).
+  Notation o_cal := (calibrate_model_parameter Rec Field set initialisation price dflt).
+  Notation o_dfl := (run_default_calibration Rec Field set initialisation price dflt).
 
   Lemma store_store h : forall q r r', store (store h q r) q r' = store h q r'.
   Proof. induction h as [|x h IH]; intros [|q] r r'; simpl; auto. f_equal. apply IH. Qed.
 
-  (* the translated inner function (setattr; initialisation; model on the same object; price - market) is the model's objective *)
+  (* the translated inner function (setattr; initialisation; model constructor on the same object; price - market) is the model's objective *)
   Lemma gen_calibration_fun_eq q f m st x : (q < length st)%nat -> g_fun q f m st x = h_fun q f m st x.
   Proof.
-    intro Hq. unfold gen_calibration_fun, calibration_fun, assign_init, obind, op_setattr, hop_setattr, op_initialisation,
-      hop_initialisation, op_price, hop_price.
+    intro Hq. unfold gen_calibration_fun, calibration_fun_g, Params.assign_init, obind, op_setattr, hop_setattr, op_initialisation,
+      hop_initialisation, op_price, hop_price, op_model, hop_model.
     destruct (set (load st q) f x) as [r' ok]. destruct ok; [|reflexivity].
     rewrite load_store_same by exact Hq.
     destruct (initialisation r') as [r''| |]; try reflexivity.
-    rewrite store_store. rewrite load_store_same by exact Hq. reflexivity.
+    rewrite store_store. rewrite load_store_same by exact Hq. destruct (model_ok r''); [|reflexivity].
+    rewrite load_store_same by exact Hq. reflexivity.
   Qed.
-  Lemma calibration_fun_length q f m st x st' v : h_fun q f m st x = Some (st', v) -> length st' = length st.
+  Lemma calibration_fun_g_old q f m st x st' v : h_fun q f m st x = Some (st', v) ->
+    o_fun q f m st x = Some (st', v) /\ exists r, assign_init (load st q) f x = Some r /\ model_ok r = true /\ st' = store st q r /\ v = price r - m.
   Proof.
-    unfold calibration_fun. destruct (assign_init Rec Field set initialisation (load st q) f x); [|discriminate].
-    intro H; inversion H; subst. apply length_store.
+    unfold calibration_fun_g, calibration_fun. destruct (assign_init (load st q) f x) as [r|]; [|discriminate].
+    destruct (model_ok r) eqn:G; [|discriminate]. intro H; inversion H; subst. split; [reflexivity|]. exists r. auto.
   Qed.
+  Lemma calibration_fun_g_length q f m st x st' v : h_fun q f m st x = Some (st', v) -> length st' = length st.
+  Proof. intro H. apply calibration_fun_g_old in H. destruct H as (_ & r & _ & _ & -> & _). apply length_store. Qed.
   Lemma gen_brentq_eq q f m xs : forall st, (q < length st)%nat ->
-    op_brentq Rec Field set initialisation price dflt (g_fun q f m) st xs = h_trials q f m st xs.
+    hop_brentq Rec (g_fun q f m) st xs = h_trials q f m st xs.
   Proof.
-    unfold op_brentq. induction xs as [|x xs IH]; intros st Hq; simpl; [reflexivity|].
+    induction xs as [|x xs IH]; intros st Hq; simpl; [reflexivity|].
     rewrite gen_calibration_fun_eq by exact Hq.
     destruct (h_fun q f m st x) as [[st' v]|] eqn:E; [|reflexivity].
-    apply IH. rewrite (calibration_fun_length _ _ _ _ _ _ _ E). exact Hq.
+    apply IH. rewrite (calibration_fun_g_length _ _ _ _ _ _ _ E). exact Hq.
   Qed.
 
-  (* calibrate_model_parameter as translated = the heap model WITH the deep copy *)
-  Lemma gen_calibrate_eq h p f m xs : g_cal h p f m xs = h_cal false h p f m xs.
+  (* calibrate_model_parameter as translated = the guarded heap model *)
+  Lemma gen_calibrate_eq h p f ab m xs : g_cal h p f ab m xs = h_cal h p f ab m xs.
   Proof.
-    unfold gen_calibrate_model_parameter, calibrate_model_parameter, op_deepcopy, hop_deepcopy, deepcopy.
-    apply gen_brentq_eq. rewrite app_length. simpl. lia.
+    unfold gen_calibrate_model_parameter, calibrate_model_parameter_g, op_deepcopy, hop_deepcopy, deepcopy, op_brentq_ab, hop_brentq_ab.
+    destruct ab as [a b]. cbn [fst snd].
+    assert (H0 : (length h < length (h ++ [load h p]))%nat) by (rewrite app_length; simpl; lia).
+    rewrite gen_calibration_fun_eq by exact H0.
+    destruct (h_fun (length h) f m (h ++ [load h p]) a) as [[st1 fa]|] eqn:E1; [|reflexivity].
+    assert (H1 : (length h < length st1)%nat) by (rewrite (calibration_fun_g_length _ _ _ _ _ _ _ E1); exact H0).
+    rewrite gen_calibration_fun_eq by exact H1.
+    destruct (h_fun (length h) f m st1 b) as [[st2 fb]|] eqn:E2; [|reflexivity].
+    destruct (Qeq_bool fa 0 || Qeq_bool fb 0); [reflexivity|]. destruct (Qle_bool (fa * fb) 0); [|reflexivity].
+    apply gen_brentq_eq. rewrite (calibration_fun_g_length _ _ _ _ _ _ _ E2). exact H1.
   Qed.
-  Lemma gen_run_default_eq h p f m xs x : g_dfl h p f m xs x = h_dfl h p f m xs x.
+  Lemma gen_run_default_eq h p f ab m xs x : g_dfl h p f ab m xs x = h_dfl h p f ab m xs x.
   Proof.
-    unfold gen_run_default_calibration, run_default_calibration, obind. rewrite gen_calibrate_eq.
-    destruct (h_cal false h p f m xs) as [h1|]; [|reflexivity].
-    unfold op_deepcopy, hop_deepcopy, deepcopy, assign_init, op_setattr, hop_setattr, op_initialisation, hop_initialisation.
+    unfold gen_run_default_calibration, run_default_calibration_g, obind. rewrite gen_calibrate_eq.
+    destruct (h_cal h p f ab m xs) as [h1|]; [|reflexivity].
+    unfold op_deepcopy, hop_deepcopy, deepcopy, Params.assign_init, op_setattr, hop_setattr, op_initialisation, hop_initialisation, op_model, hop_model.
     assert (Hq : (length h1 < length (h1 ++ [load h1 p]))%nat) by (rewrite app_length; simpl; lia).
     destruct (set (load (h1 ++ [load h1 p]) (length h1)) f x) as [r' ok]. destruct ok; [|reflexivity].
     rewrite load_store_same by exact Hq.
     destruct (initialisation r') as [r''| |]; try reflexivity.
-    rewrite store_store. reflexivity.
+    rewrite store_store. rewrite load_store_same by exact Hq. destruct (model_ok r''); reflexivity.
+  Qed.
+
+  (* ---- the guarded model against the model of Params.v: whenever it RETURNS, the unguarded model returns the same heap on the
+     trial list brentq actually evaluated ([a; b] when an end value is zero, a :: b :: xs otherwise) *)
+  Lemma run_trials_g_old q f m xs : forall st st', h_trials q f m st xs = Some st' -> o_trials q f m st xs = Some st'.
+  Proof.
+    induction xs as [|x xs IH]; intros st st' H; simpl in *; [exact H|].
+    destruct (h_fun q f m st x) as [[st1 v]|] eqn:E; [|discriminate].
+    apply calibration_fun_g_old in E. destruct E as [E _]. rewrite E. apply IH, H.
+  Qed.
+  Lemma calibrate_g_old h p f a b m xs h' : h_cal h p f (a, b) m xs = Some h' ->
+    exists tl, (tl = [a; b] \/ tl = a :: b :: xs) /\ o_cal false h p f m tl = Some h'.
+  Proof.
+    unfold calibrate_model_parameter_g, calibrate_model_parameter, deepcopy. cbn [fst snd].
+    destruct (h_fun (length h) f m (h ++ [load h p]) a) as [[st1 fa]|] eqn:E1; [|discriminate].
+    destruct (h_fun (length h) f m st1 b) as [[st2 fb]|] eqn:E2; [|discriminate].
+    apply calibration_fun_g_old in E1. destruct E1 as [E1 _]. apply calibration_fun_g_old in E2. destruct E2 as [E2 _].
+    destruct (Qeq_bool fa 0 || Qeq_bool fb 0).
+    - intro H; inversion H; subst. exists [a; b]. split; [auto|]. simpl. rewrite E1, E2. reflexivity.
+    - destruct (Qle_bool (fa * fb) 0); [|discriminate]. intro H. exists (a :: b :: xs). split; [auto|]. simpl. rewrite E1, E2.
+      apply run_trials_g_old, H.
+  Qed.
+  Lemma run_default_g_old h p f a b m xs x h' q : h_dfl h p f (a, b) m xs x = Some (h', q) ->
+    exists tl, (tl = [a; b] \/ tl = a :: b :: xs) /\ o_dfl h p f m tl x = Some (h', q) /\ model_ok (load h' q) = true.
+  Proof.
+    unfold run_default_calibration_g, run_default_calibration.
+    destruct (h_cal h p f (a, b) m xs) as [h1|] eqn:E; [|discriminate].
+    apply calibrate_g_old in E. destruct E as (tl & Htl & E). intro H. exists tl. split; [exact Htl|]. rewrite E.
+    unfold deepcopy in *. destruct (assign_init (load (h1 ++ [load h1 p]) (length h1)) f x) as [r|]; [|discriminate].
+    destruct (model_ok r) eqn:G; [|discriminate]. inversion H; subst. split; [reflexivity|].
+    rewrite load_store_same by (rewrite app_length; simpl; lia). exact G.
+  Qed.
+
+  (* ---- when it RAISES.  The objective values at the two ends, on the working copy *)
+  Lemma calibrate_g_first h p f a b m xs :
+    h_cal h p f (a, b) m xs =
+    match assign_init (load h p) f a with
+    | None => None
+    | Some ra => if model_ok ra then
+        match assign_init ra f b with
+        | None => None
+        | Some rb => if model_ok rb then
+            let st2 := store (store (h ++ [load h p]) (length h) ra) (length h) rb in
+            if Qeq_bool (price ra - m) 0 || Qeq_bool (price rb - m) 0 then Some st2
+            else if Qle_bool ((price ra - m) * (price rb - m)) 0 then h_trials (length h) f m st2 xs else None
+          else None
+        end else None
+    end.
+  Proof.
+    unfold calibrate_model_parameter_g, deepcopy, calibration_fun_g. cbn [fst snd]. rewrite load_app_new.
+    destruct (assign_init (load h p) f a) as [ra|]; [|reflexivity]. destruct (model_ok ra); [|reflexivity].
+    rewrite load_store_same by (rewrite app_length; simpl; lia).
+    destruct (assign_init ra f b) as [rb|]; [|reflexivity]. destruct (model_ok rb); reflexivity.
+  Qed.
+  (* brentq's own ValueError: both end values non-zero with the same sign *)
+  Lemma calibrate_g_sign_error h p f a b m xs ra rb : assign_init (load h p) f a = Some ra -> assign_init ra f b = Some rb ->
+    0 < (price ra - m) * (price rb - m) -> h_cal h p f (a, b) m xs = None.
+  Proof.
+    intros Ea Eb Hs. rewrite calibrate_g_first, Ea, Eb. destruct (model_ok ra); [|reflexivity]. destruct (model_ok rb); [|reflexivity]. cbv zeta.
+    assert (Na : Qeq_bool (price ra - m) 0 = false).
+    { destruct (Qeq_bool (price ra - m) 0) eqn:Z; [|reflexivity]. apply Qeq_bool_iff in Z. rewrite Z in Hs. exfalso. lra. }
+    assert (Nb : Qeq_bool (price rb - m) 0 = false).
+    { destruct (Qeq_bool (price rb - m) 0) eqn:Z; [|reflexivity]. apply Qeq_bool_iff in Z. rewrite Z in Hs. exfalso. lra. }
+    rewrite Na, Nb. simpl orb. cbv iota.
+    destruct (Qle_bool ((price ra - m) * (price rb - m)) 0) eqn:L; [|reflexivity]. apply Qle_bool_iff in L. exfalso. lra.
+  Qed.
+  (* the exponential model's constructor refuses the parameters at an end of the interval *)
+  Lemma calibrate_g_guard_a h p f a b m xs ra : assign_init (load h p) f a = Some ra -> model_ok ra = false -> h_cal h p f (a, b) m xs = None.
+  Proof. intros Ea G. rewrite calibrate_g_first, Ea, G. reflexivity. Qed.
+  Lemma calibrate_g_guard_b h p f a b m xs ra rb : assign_init (load h p) f a = Some ra -> assign_init ra f b = Some rb -> model_ok rb = false ->
+    h_cal h p f (a, b) m xs = None.
+  Proof. intros Ea Eb G. rewrite calibrate_g_first, Ea, Eb, G. destruct (model_ok ra); reflexivity. Qed.
+  Lemma run_default_g_none h p f ab m xs x : h_cal h p f ab m xs = None -> h_dfl h p f ab m xs x = None.
+  Proof. intro E. unfold run_default_calibration_g. rewrite E. reflexivity. Qed.
+  (* ... or at the returned value *)
+  Lemma run_default_g_guard_x h p f a b m xs x rx : (p < length h)%nat -> assign_init (load h p) f x = Some rx -> model_ok rx = false ->
+    h_dfl h p f (a, b) m xs x = None.
+  Proof.
+    intros Hp Ex G. unfold run_default_calibration_g. destruct (h_cal h p f (a, b) m xs) as [h1|] eqn:E; [|reflexivity].
+    apply calibrate_g_old in E. destruct E as (tl & _ & E). apply calibrate_input_untouched in E. destruct E as [_ F].
+    unfold deepcopy. rewrite load_app_new, (F p Hp), Ex, G. reflexivity.
+  Qed.
+  (* a value the setter / the re-initialisation refuses, at an end or as the returned value *)
+  Lemma run_default_g_rejected h p f a b m xs x y : (forall r, assign_init r f y = None) -> y = a \/ y = b \/ y = x ->
+    h_dfl h p f (a, b) m xs x = None.
+  Proof.
+    intros Hrej Hy. unfold run_default_calibration_g.
+    destruct (h_cal h p f (a, b) m xs) as [h1|] eqn:E.
+    - destruct Hy as [-> | [-> | ->]].
+      + rewrite calibrate_g_first, Hrej in E. discriminate.
+      + rewrite calibrate_g_first in E. destruct (assign_init (load h p) f a) as [ra|]; [|discriminate].
+        destruct (model_ok ra); [|discriminate]. rewrite Hrej in E. discriminate.
+      + unfold deepcopy. rewrite Hrej. reflexivity.
+    - reflexivity.
+  Qed.
+
+  (* ---- NOTHING RAISES => it returns: every evaluated value assignable and accepted by the model constructor on the records that can
+     occur (invariant Inv), and the two end values do not have the same strict sign *)
+  Lemma run_trials_g_succeeds (Inv : Rec -> Prop) q f m xs :
+    (forall y r, In y xs -> Inv r -> exists r', assign_init r f y = Some r' /\ Inv r' /\ model_ok r' = true) ->
+    forall st, (q < length st)%nat -> Inv (load st q) -> exists st', h_trials q f m st xs = Some st'.
+  Proof.
+    induction xs as [|x xs IH]; intros Hacc st Hq HI; simpl; [eauto|].
+    unfold calibration_fun_g. destruct (Hacc x (load st q) (or_introl eq_refl) HI) as (r' & E & HI' & G). rewrite E, G.
+    apply (IH (fun y r Hy => Hacc y r (or_intror Hy))).
+    - rewrite length_store. exact Hq.
+    - rewrite load_store_same by exact Hq. exact HI'.
+  Qed.
+  Lemma run_default_g_succeeds (Inv : Rec -> Prop) h p f a b m xs x : (p < length h)%nat -> Inv (load h p) ->
+    (forall y r, In y (a :: b :: x :: xs) -> Inv r -> exists r', assign_init r f y = Some r' /\ Inv r' /\ model_ok r' = true) ->
+    (forall ra rb, assign_init (load h p) f a = Some ra -> assign_init ra f b = Some rb -> (price ra - m) * (price rb - m) <= 0) ->
+    exists h' q, h_dfl h p f (a, b) m xs x = Some (h', q).
+  Proof.
+    intros Hp HI Hacc Hsign.
+    assert (Hc : exists h1, h_cal h p f (a, b) m xs = Some h1).
+    { rewrite calibrate_g_first.
+      destruct (Hacc a (load h p) (or_introl eq_refl) HI) as (ra & Ea & Ia & Ga). rewrite Ea, Ga.
+      destruct (Hacc b ra (or_intror (or_introl eq_refl)) Ia) as (rb & Eb & Ib & Gb). rewrite Eb, Gb. cbv zeta.
+      destruct (Qeq_bool (price ra - m) 0 || Qeq_bool (price rb - m) 0); [eauto|].
+      pose proof (Hsign ra rb Ea Eb) as L. apply Qle_bool_iff in L. rewrite L.
+      apply (run_trials_g_succeeds Inv).
+      - intros y r Hy. apply Hacc. right. right. right. exact Hy.
+      - rewrite !length_store, app_length. simpl. lia.
+      - rewrite load_store_same by (rewrite length_store, app_length; simpl; lia). exact Ib. }
+    destruct Hc as [h1 E]. unfold run_default_calibration_g. rewrite E.
+    pose proof E as E'. apply calibrate_g_old in E'. destruct E' as (tl & _ & E'). apply calibrate_input_untouched in E'. destruct E' as [_ F].
+    unfold deepcopy. rewrite load_app_new, (F p Hp).
+    destruct (Hacc x (load h p) (or_intror (or_intror (or_introl eq_refl))) HI) as (rx & Ex & _ & Gx). rewrite Ex, Gx. eauto.
   Qed.
 End GenEqHand.
 
@@ -144,146 +295,289 @@ Proof.
 Qed.
 End Classes.
 
-(* ------------------------------------------------------------------ generic: must succeed / must raise for the GENERATED program *)
+(* ------------------------------------------------------------------ generic: returns / raises for the GENERATED program on one table entry *)
 Section GenGeneric.
   Variable Rec Field : Type.
   Variable set : Rec -> Field -> Q -> Rec * bool.
   Variable initialisation : Rec -> outcome Rec.
   Variable price : Rec -> Q.
   Variable dflt : Rec.
+  Variable model_ok : Rec -> bool.
   Notation load := (load Rec dflt).
   Notation assign_init := (assign_init Rec Field set initialisation).
-  Notation g_dfl := (gen_run_default_calibration Rec Field set initialisation price dflt).
+  Notation g_dfl := (gen_run_default_calibration Rec Field set initialisation price dflt model_ok).
+  (* one entry of the default table: field f, interval [lo, hi]; ok = "constructed object"; ctor r y = the parameter constructor applied
+     to the fields of r with f := y *)
+  Variable ok : Rec -> Prop.
+  Variable f : Field.
+  Variable lo hi : Q.
+  Variable ctor : Rec -> Q -> outcome Rec.
+  Hypothesis H_assign : forall r y, ok r -> lo <= y /\ y <= hi -> exists r', assign_init r f y = Some r' /\ ok r' /\ ctor r y = Built r'.
+  Hypothesis H_absorb : forall r x y r1, assign_init r f y = Some r1 -> assign_init r1 f x = assign_init r f x.
+  Hypothesis H_lohi : lo <= hi.
 
-  Lemma gen_default_succeeds (Inv : Rec -> Prop) h p f m xs x : (p < length h)%nat -> Inv (load h p) ->
-    (forall y r, In y (x :: xs) -> Inv r -> exists r', assign_init r f y = Some r' /\ Inv r') ->
-    exists h' q, g_dfl h p f m xs x = Some (h', q)
+  Lemma assign_is_ctor r y r' : ok r -> lo <= y /\ y <= hi -> (assign_init r f y = Some r' <-> ctor r y = Built r').
+  Proof.
+    intros Hr Hy. destruct (H_assign r y Hr Hy) as (r1 & E & _ & K). rewrite E, K. split; intro H; inversion H; reflexivity.
+  Qed.
+
+  Lemma gen_default_returns h p m xs x : (p < length h)%nat -> let r := load h p in ok r ->
+    (forall y, In y (lo :: hi :: x :: xs) -> lo <= y /\ y <= hi) ->
+    (forall y r', In y (lo :: hi :: x :: xs) -> ctor r y = Built r' -> model_ok r' = true) ->
+    (forall ra rb, ctor r lo = Built ra -> ctor r hi = Built rb -> (price ra - m) * (price rb - m) <= 0) ->
+    exists h' q, g_dfl h p f (lo, hi) m xs x = Some (h', q)
       /\ (forall p', (p' < length h)%nat -> load h' p' = load h p') /\ (length h <= q)%nat
-      /\ assign_init (load h p) f x = Some (load h' q).
+      /\ ctor r x = Built (load h' q) /\ model_ok (load h' q) = true.
   Proof.
-    intros Hp HI Hacc.
-    destruct (run_default_succeeds Rec Field set initialisation price dflt Inv h p f m xs x Hp HI Hacc) as (h' & q & E).
-    exists h', q. rewrite gen_run_default_eq. split; [exact E|].
-    exact (run_default_spec Rec Field set initialisation price dflt h p f m xs x h' q Hp E).
+    intros Hp r Hr Hin Hok Hsign.
+    set (Inv := fun rk => ok rk /\ forall y, assign_init rk f y = assign_init r f y).
+    destruct (run_default_g_succeeds Rec Field set initialisation price dflt model_ok Inv h p f lo hi m xs x Hp) as (h' & q & E).
+    - split; [exact Hr|reflexivity].
+    - intros y rk Hy [Ok Eq]. destruct (H_assign rk y Ok (Hin y Hy)) as (r' & E & Ok' & _). exists r'. split; [exact E|]. split.
+      + split; [exact Ok'|]. intro z. rewrite (H_absorb rk z y r' E). apply Eq.
+      + apply (Hok y r' Hy). apply (assign_is_ctor r y r' Hr (Hin y Hy)). rewrite <- Eq. exact E.
+    - intros ra rb Ea Eb. apply Hsign.
+      + apply (assign_is_ctor r lo ra Hr); [apply Hin; simpl; auto|exact Ea].
+      + apply (assign_is_ctor r hi rb Hr); [apply Hin; simpl; auto|]. rewrite <- (H_absorb r hi lo ra Ea). exact Eb.
+    - exists h', q. rewrite gen_run_default_eq. split; [exact E|].
+      apply run_default_g_old in E. destruct E as (tl & _ & E & G).
+      destruct (run_default_spec Rec Field set initialisation price dflt h p f m tl x h' q Hp E) as (A & B & C).
+      repeat split; try assumption.
+      apply (assign_is_ctor r x _ Hr); [apply Hin; simpl; auto|exact C].
   Qed.
-  Lemma gen_default_refused h p f m xs x y : (forall r, assign_init r f y = None) -> In y (x :: xs) -> g_dfl h p f m xs x = None.
+  (* brentq's own ValueError *)
+  Lemma gen_default_sign_error h p m xs x ra rb : let r := load h p in ok r -> ctor r lo = Built ra -> ctor r hi = Built rb ->
+    0 < (price ra - m) * (price rb - m) -> g_dfl h p f (lo, hi) m xs x = None.
   Proof.
-    intros Hrej [<- | Hin]; rewrite gen_run_default_eq.
-    - apply run_default_rejected, Hrej.
-    - unfold run_default_calibration. rewrite (calibrate_rejected Rec Field set initialisation price dflt h p f m y xs false Hrej Hin). reflexivity.
+    intros r Hr Ka Kb Hs. rewrite gen_run_default_eq. apply run_default_g_none.
+    apply (calibrate_g_sign_error Rec Field set initialisation price dflt model_ok h p f lo hi m xs ra rb); [| |exact Hs].
+    - apply (assign_is_ctor r lo ra Hr); [lra|exact Ka].
+    - assert (Ea : assign_init r f lo = Some ra) by (apply (assign_is_ctor r lo ra Hr); [lra|exact Ka]).
+      rewrite (H_absorb r hi lo ra Ea). apply (assign_is_ctor r hi rb Hr); [lra|exact Kb].
   Qed.
+  (* the exponential model's constructor refuses the parameters built at an end of the interval, or at the returned value *)
+  Lemma gen_default_guard_error h p m xs x y ry : (p < length h)%nat -> let r := load h p in ok r ->
+    y = lo \/ y = hi \/ (y = x /\ lo <= x /\ x <= hi) -> ctor r y = Built ry -> model_ok ry = false -> g_dfl h p f (lo, hi) m xs x = None.
+  Proof.
+    intros Hp r Hr Hy K G. rewrite gen_run_default_eq.
+    assert (Ea : exists ra, assign_init r f lo = Some ra).
+    { destruct (H_assign r lo Hr) as (ra & E & _); [lra|eauto]. }
+    destruct Ea as [ra Ea].
+    destruct Hy as [-> | [-> | (-> & Hx)]].
+    - apply run_default_g_none. apply (assign_is_ctor r lo ry Hr) in K; [|lra].
+      apply (calibrate_g_guard_a Rec Field set initialisation price dflt model_ok h p f lo hi m xs ry K G).
+    - apply run_default_g_none. apply (assign_is_ctor r hi ry Hr) in K; [|lra].
+      apply (calibrate_g_guard_b Rec Field set initialisation price dflt model_ok h p f lo hi m xs ra ry Ea); [|exact G].
+      rewrite (H_absorb r hi lo ra Ea). exact K.
+    - apply (assign_is_ctor r x ry Hr Hx) in K.
+      apply (run_default_g_guard_x Rec Field set initialisation price dflt model_ok h p f lo hi m xs x ry Hp K G).
+  Qed.
+  Lemma gen_default_refused h p a b m xs x y : (forall r, assign_init r f y = None) -> y = a \/ y = b \/ y = x -> g_dfl h p f (a, b) m xs x = None.
+  Proof. intros Hrej Hy. rewrite gen_run_default_eq. apply (run_default_g_rejected Rec Field set initialisation price dflt model_ok h p f a b m xs x y Hrej Hy). Qed.
 End GenGeneric.
 
 Lemma generated_program_all : forall (Rec Field : Type) (set : Rec -> Field -> Q -> Rec * bool) (initialisation : Rec -> outcome Rec)
-    (price : Rec -> Q) (dflt : Rec),
+    (price : Rec -> Q) (dflt : Rec) (model_ok : Rec -> bool),
   (forall q f market st x, (q < length st)%nat ->
-     gen_calibration_fun Rec Field set initialisation price dflt q f market st x = calibration_fun Rec Field set initialisation price dflt q f market st x)
-  /\ (forall h p f market xs,
-     gen_calibrate_model_parameter Rec Field set initialisation price dflt h p f market xs
-     = calibrate_model_parameter Rec Field set initialisation price dflt false h p f market xs)
-  /\ (forall h p f market xs x,
-     gen_run_default_calibration Rec Field set initialisation price dflt h p f market xs x
-     = run_default_calibration Rec Field set initialisation price dflt h p f market xs x).
+     gen_calibration_fun Rec Field set initialisation price dflt model_ok q f market st x
+     = calibration_fun_g Rec Field set initialisation price dflt model_ok q f market st x)
+  /\ (forall h p f ab market xs,
+     gen_calibrate_model_parameter Rec Field set initialisation price dflt model_ok h p f ab market xs
+     = calibrate_model_parameter_g Rec Field set initialisation price dflt model_ok h p f ab market xs)
+  /\ (forall h p f ab market xs x,
+     gen_run_default_calibration Rec Field set initialisation price dflt model_ok h p f ab market xs x
+     = run_default_calibration_g Rec Field set initialisation price dflt model_ok h p f ab market xs x)
+  (* whenever the generated program returns, the model of Params.v (no constructor guard, no sign test) returns the same heap on the
+     trial list brentq evaluated: every clause of C20_calibration_spec_partial applies to what is returned *)
+  /\ (forall h p f a b market xs h',
+     gen_calibrate_model_parameter Rec Field set initialisation price dflt model_ok h p f (a, b) market xs = Some h' ->
+     exists tl, (tl = [a; b] \/ tl = a :: b :: xs) /\ calibrate_model_parameter Rec Field set initialisation price dflt false h p f market tl = Some h')
+  /\ (forall h p f a b market xs x h' q,
+     gen_run_default_calibration Rec Field set initialisation price dflt model_ok h p f (a, b) market xs x = Some (h', q) ->
+     exists tl, (tl = [a; b] \/ tl = a :: b :: xs) /\ run_default_calibration Rec Field set initialisation price dflt h p f market tl x = Some (h', q)
+                /\ model_ok (load Rec dflt h' q) = true).
 Proof.
   intros. repeat apply conj.
   - intros. apply gen_calibration_fun_eq. assumption.
   - apply gen_calibrate_eq.
   - apply gen_run_default_eq.
+  - intros h p f a b market xs h'. rewrite gen_calibrate_eq. apply calibrate_g_old.
+  - intros h p f a b market xs x h' q. rewrite gen_run_default_eq. apply run_default_g_old.
 Qed.
 
-Lemma default_calibration_must_succeed_all : forall (fsqrt fgamma : Q -> Q) (fpow : Q -> Q -> Q),
-  (forall price dflt h p market xs x, (p < length h)%nat ->
+Section ClassesG.
+Variable fsqrt : Q -> Q.
+Variable fgamma : Q -> Q.
+Variable fpow : Q -> Q -> Q.
+Definition hem_ctor_with (r : HemRec) (y : Q) := hem_construct y (h_p r) (h_eta1 r) (h_eta2 r) (h_intensity r).
+Definition merton_ctor_with (r : MertonRec) (y : Q) := merton_construct (m_sigma r) y (m_sigma_j r) (m_intensity r).
+Definition vg_ctor_with (r : VgRec) (y : Q) := vg_construct fsqrt y (v_nu r) (v_theta r).
+Definition cgmy_ctor_with (r : CgmyRec) (y : Q) := cgmy_construct fgamma fpow y (c_g r) (c_m r) (c_y r).
+Lemma hem_entry : (forall r y, hem_ok r -> dc_hem_lo <= y /\ y <= dc_hem_hi ->
+    exists r', assign_init HemRec HemField hem_set hem_initialisation_checked r dc_hem_field y = Some r' /\ hem_ok r' /\ hem_ctor_with r y = Built r')
+  /\ dc_hem_lo <= dc_hem_hi.
+Proof. split; [intros; apply hem_default_assignable; assumption|]. vm_compute. discriminate. Qed.
+Lemma merton_entry : (forall r y, merton_ok r -> dc_merton_lo <= y /\ y <= dc_merton_hi ->
+    exists r', assign_init MertonRec MertonField merton_set merton_initialisation_checked r dc_merton_field y = Some r' /\ merton_ok r' /\ merton_ctor_with r y = Built r')
+  /\ dc_merton_lo <= dc_merton_hi.
+Proof. split; [intros; apply merton_default_assignable; assumption|]. vm_compute. discriminate. Qed.
+Lemma vg_entry : (forall r y, vg_ok r -> dc_vg_lo <= y /\ y <= dc_vg_hi ->
+    exists r', assign_init VgRec VgField vg_set (vg_initialisation_checked fsqrt) r dc_vg_field y = Some r' /\ vg_ok r' /\ vg_ctor_with r y = Built r')
+  /\ dc_vg_lo <= dc_vg_hi.
+Proof. split; [intros; apply vg_default_assignable; assumption|]. vm_compute. discriminate. Qed.
+Lemma cgmy_entry : (forall r y, cgmy_ok r -> dc_cgmy_lo <= y /\ y <= dc_cgmy_hi ->
+    exists r', assign_init CgmyRec CgmyField cgmy_set (cgmy_initialisation_checked fgamma fpow) r dc_cgmy_field y = Some r' /\ cgmy_ok r' /\ cgmy_ctor_with r y = Built r')
+  /\ dc_cgmy_lo <= dc_cgmy_hi.
+Proof. split; [intros; apply cgmy_default_assignable; assumption|]. vm_compute. discriminate. Qed.
+End ClassesG.
+
+(* NOTHING RAISES => RETURNS, class by class on the GENERATED table and the GENERATED program.  The hypotheses are, one by one, the
+   absence of each raise the program can produce: setter ValueError / ZeroDivisionError of the re-initialisation (values in the table's
+   interval on a constructed object), ValueError of the exponential model's constructor (model_ok on the parameters built with each
+   evaluated value), brentq's ValueError (the two end values do not have the same strict sign). *)
+Lemma default_calibration_returns_all : forall (fsqrt fgamma : Q -> Q) (fpow : Q -> Q -> Q),
+  (forall price model_ok dflt h p market xs x, (p < length h)%nat ->
      let r := load HemRec dflt h p in hem_valid r = true /\ hem_defined r = true ->
      (forall y, In y (x :: xs) -> dc_hem_lo <= y /\ y <= dc_hem_hi) ->
-     exists h' q, gen_run_default_calibration HemRec HemField hem_set hem_initialisation_checked price dflt h p dc_hem_field market xs x = Some (h', q)
+     (forall y r', In y (dc_hem_lo :: dc_hem_hi :: x :: xs) -> hem_construct y (h_p r) (h_eta1 r) (h_eta2 r) (h_intensity r) = Built r' -> model_ok r' = true) ->
+     (forall ra rb, hem_construct dc_hem_lo (h_p r) (h_eta1 r) (h_eta2 r) (h_intensity r) = Built ra -> hem_construct dc_hem_hi (h_p r) (h_eta1 r) (h_eta2 r) (h_intensity r) = Built rb -> (price ra - market) * (price rb - market) <= 0) ->
+     exists h' q, gen_run_default_calibration HemRec HemField hem_set hem_initialisation_checked price dflt model_ok h p dc_hem_field (dc_hem_lo, dc_hem_hi) market xs x = Some (h', q)
        /\ (forall p', (p' < length h)%nat -> load HemRec dflt h' p' = load HemRec dflt h p') /\ (length h <= q)%nat
-       /\ hem_construct x (h_p r) (h_eta1 r) (h_eta2 r) (h_intensity r) = Built (load HemRec dflt h' q))
-  /\ (forall price dflt h p market xs x, (p < length h)%nat ->
+       /\ hem_construct x (h_p r) (h_eta1 r) (h_eta2 r) (h_intensity r) = Built (load HemRec dflt h' q) /\ model_ok (load HemRec dflt h' q) = true)
+  /\ (forall price model_ok dflt h p market xs x, (p < length h)%nat ->
      let r := load MertonRec dflt h p in merton_valid r = true ->
      (forall y, In y (x :: xs) -> dc_merton_lo <= y /\ y <= dc_merton_hi) ->
-     exists h' q, gen_run_default_calibration MertonRec MertonField merton_set merton_initialisation_checked price dflt h p dc_merton_field market xs x = Some (h', q)
+     (forall y r', In y (dc_merton_lo :: dc_merton_hi :: x :: xs) -> merton_construct (m_sigma r) y (m_sigma_j r) (m_intensity r) = Built r' -> model_ok r' = true) ->
+     (forall ra rb, merton_construct (m_sigma r) dc_merton_lo (m_sigma_j r) (m_intensity r) = Built ra -> merton_construct (m_sigma r) dc_merton_hi (m_sigma_j r) (m_intensity r) = Built rb -> (price ra - market) * (price rb - market) <= 0) ->
+     exists h' q, gen_run_default_calibration MertonRec MertonField merton_set merton_initialisation_checked price dflt model_ok h p dc_merton_field (dc_merton_lo, dc_merton_hi) market xs x = Some (h', q)
        /\ (forall p', (p' < length h)%nat -> load MertonRec dflt h' p' = load MertonRec dflt h p') /\ (length h <= q)%nat
-       /\ merton_construct (m_sigma r) x (m_sigma_j r) (m_intensity r) = Built (load MertonRec dflt h' q))
-  /\ (forall price dflt h p market xs x, (p < length h)%nat ->
+       /\ merton_construct (m_sigma r) x (m_sigma_j r) (m_intensity r) = Built (load MertonRec dflt h' q) /\ model_ok (load MertonRec dflt h' q) = true)
+  /\ (forall price model_ok dflt h p market xs x, (p < length h)%nat ->
      let r := load VgRec dflt h p in vg_valid r = true /\ vg_defined r = true ->
      (forall y, In y (x :: xs) -> dc_vg_lo <= y /\ y <= dc_vg_hi) ->
-     exists h' q, gen_run_default_calibration VgRec VgField vg_set (vg_initialisation_checked fsqrt) price dflt h p dc_vg_field market xs x = Some (h', q)
+     (forall y r', In y (dc_vg_lo :: dc_vg_hi :: x :: xs) -> vg_construct fsqrt y (v_nu r) (v_theta r) = Built r' -> model_ok r' = true) ->
+     (forall ra rb, vg_construct fsqrt dc_vg_lo (v_nu r) (v_theta r) = Built ra -> vg_construct fsqrt dc_vg_hi (v_nu r) (v_theta r) = Built rb -> (price ra - market) * (price rb - market) <= 0) ->
+     exists h' q, gen_run_default_calibration VgRec VgField vg_set (vg_initialisation_checked fsqrt) price dflt model_ok h p dc_vg_field (dc_vg_lo, dc_vg_hi) market xs x = Some (h', q)
        /\ (forall p', (p' < length h)%nat -> load VgRec dflt h' p' = load VgRec dflt h p') /\ (length h <= q)%nat
-       /\ vg_construct fsqrt x (v_nu r) (v_theta r) = Built (load VgRec dflt h' q))
-  /\ (forall price dflt h p market xs x, (p < length h)%nat ->
+       /\ vg_construct fsqrt x (v_nu r) (v_theta r) = Built (load VgRec dflt h' q) /\ model_ok (load VgRec dflt h' q) = true)
+  /\ (forall price model_ok dflt h p market xs x, (p < length h)%nat ->
      let r := load CgmyRec dflt h p in cgmy_valid r = true ->
      (forall y, In y (x :: xs) -> dc_cgmy_lo <= y /\ y <= dc_cgmy_hi) ->
-     exists h' q, gen_run_default_calibration CgmyRec CgmyField cgmy_set (cgmy_initialisation_checked fgamma fpow) price dflt h p dc_cgmy_field market xs x = Some (h', q)
+     (forall y r', In y (dc_cgmy_lo :: dc_cgmy_hi :: x :: xs) -> cgmy_construct fgamma fpow y (c_g r) (c_m r) (c_y r) = Built r' -> model_ok r' = true) ->
+     (forall ra rb, cgmy_construct fgamma fpow dc_cgmy_lo (c_g r) (c_m r) (c_y r) = Built ra -> cgmy_construct fgamma fpow dc_cgmy_hi (c_g r) (c_m r) (c_y r) = Built rb -> (price ra - market) * (price rb - market) <= 0) ->
+     exists h' q, gen_run_default_calibration CgmyRec CgmyField cgmy_set (cgmy_initialisation_checked fgamma fpow) price dflt model_ok h p dc_cgmy_field (dc_cgmy_lo, dc_cgmy_hi) market xs x = Some (h', q)
        /\ (forall p', (p' < length h)%nat -> load CgmyRec dflt h' p' = load CgmyRec dflt h p') /\ (length h <= q)%nat
-       /\ cgmy_construct fgamma fpow x (c_g r) (c_m r) (c_y r) = Built (load CgmyRec dflt h' q)).
+       /\ cgmy_construct fgamma fpow x (c_g r) (c_m r) (c_y r) = Built (load CgmyRec dflt h' q) /\ model_ok (load CgmyRec dflt h' q) = true).
 Proof.
-  intros. repeat apply conj; intros price dflt h p market xs x Hp r HI Hin.
-  - destruct (gen_default_succeeds HemRec HemField hem_set hem_initialisation_checked price dflt hem_ok h p dc_hem_field market xs x Hp HI) as (h' & q & E & A & B & C).
-    { intros y r1 Hy H1. destruct (hem_default_assignable r1 y H1 (Hin y Hy)) as (r' & E1 & O & _). eauto. }
-    exists h', q. repeat split; try assumption.
-    destruct (hem_default_assignable r x HI (Hin x (or_introl eq_refl))) as (r' & E1 & _ & K).
-    fold r in C. rewrite C in E1. inversion E1; subst. exact K.
-  - destruct (gen_default_succeeds MertonRec MertonField merton_set merton_initialisation_checked price dflt merton_ok h p dc_merton_field market xs x Hp HI) as (h' & q & E & A & B & C).
-    { intros y r1 Hy H1. destruct (merton_default_assignable r1 y H1 (Hin y Hy)) as (r' & E1 & O & _). eauto. }
-    exists h', q. repeat split; try assumption.
-    destruct (merton_default_assignable r x HI (Hin x (or_introl eq_refl))) as (r' & E1 & _ & K).
-    fold r in C. rewrite C in E1. inversion E1; subst. exact K.
-  - destruct (gen_default_succeeds VgRec VgField vg_set (vg_initialisation_checked fsqrt) price dflt vg_ok h p dc_vg_field market xs x Hp HI) as (h' & q & E & A & B & C).
-    { intros y r1 Hy H1. destruct (vg_default_assignable fsqrt r1 y H1 (Hin y Hy)) as (r' & E1 & O & _). eauto. }
-    exists h', q. repeat split; try assumption.
-    destruct (vg_default_assignable fsqrt r x HI (Hin x (or_introl eq_refl))) as (r' & E1 & _ & K).
-    fold r in C. rewrite C in E1. inversion E1; subst. exact K.
-  - destruct (gen_default_succeeds CgmyRec CgmyField cgmy_set (cgmy_initialisation_checked fgamma fpow) price dflt cgmy_ok h p dc_cgmy_field market xs x Hp HI) as (h' & q & E & A & B & C).
-    { intros y r1 Hy H1. destruct (cgmy_default_assignable fgamma fpow r1 y H1 (Hin y Hy)) as (r' & E1 & O & _). eauto. }
-    exists h', q. repeat split; try assumption.
-    destruct (cgmy_default_assignable fgamma fpow r x HI (Hin x (or_introl eq_refl))) as (r' & E1 & _ & K).
-    fold r in C. rewrite C in E1. inversion E1; subst. exact K.
+  intros. repeat apply conj; intros price model_ok dflt h p market xs x Hp r HI Hin Hok Hsign.
+  - apply (gen_default_returns HemRec HemField hem_set hem_initialisation_checked price dflt model_ok hem_ok dc_hem_field dc_hem_lo dc_hem_hi (hem_ctor_with) (proj1 (hem_entry)) (fun r x y r1 => hem_assign_absorbs r dc_hem_field x y r1) h p market xs x Hp HI); [|exact Hok|exact Hsign].
+    pose proof (proj2 (hem_entry)) as L. intros y [<-|[<-|Hy]]; [lra|lra|apply Hin, Hy].
+  - apply (gen_default_returns MertonRec MertonField merton_set merton_initialisation_checked price dflt model_ok merton_ok dc_merton_field dc_merton_lo dc_merton_hi (merton_ctor_with) (proj1 (merton_entry)) (fun r x y r1 => merton_assign_absorbs r dc_merton_field x y r1) h p market xs x Hp HI); [|exact Hok|exact Hsign].
+    pose proof (proj2 (merton_entry)) as L. intros y [<-|[<-|Hy]]; [lra|lra|apply Hin, Hy].
+  - apply (gen_default_returns VgRec VgField vg_set (vg_initialisation_checked fsqrt) price dflt model_ok vg_ok dc_vg_field dc_vg_lo dc_vg_hi (vg_ctor_with fsqrt) (proj1 (vg_entry fsqrt)) (fun r x y r1 => vg_assign_absorbs fsqrt r dc_vg_field x y r1) h p market xs x Hp HI); [|exact Hok|exact Hsign].
+    pose proof (proj2 (vg_entry fsqrt)) as L. intros y [<-|[<-|Hy]]; [lra|lra|apply Hin, Hy].
+  - apply (gen_default_returns CgmyRec CgmyField cgmy_set (cgmy_initialisation_checked fgamma fpow) price dflt model_ok cgmy_ok dc_cgmy_field dc_cgmy_lo dc_cgmy_hi (cgmy_ctor_with fgamma fpow) (proj1 (cgmy_entry fgamma fpow)) (fun r x y r1 => cgmy_assign_absorbs fgamma fpow r dc_cgmy_field x y r1) h p market xs x Hp HI); [|exact Hok|exact Hsign].
+    pose proof (proj2 (cgmy_entry fgamma fpow)) as L. intros y [<-|[<-|Hy]]; [lra|lra|apply Hin, Hy].
 Qed.
 
-(* MUST RAISE: a trial value (or returned value) below the table's field's domain aborts the default calibration -- the lower
-   ends of the table's intervals cannot be moved below these values; VG: sigma = 0 is accepted by the setter but the
-   re-initialisation divides by zero *)
+(* MUST RAISE, class by class: (1) brentq's own ValueError -- the objective has the same strict sign at both ends of the table's interval
+   (e.g. the default HEM model with bs_sigma = 0.10: its jump volatility alone exceeds the target); (2) the exponential model's constructor
+   refuses the parameters built at an end of the interval or at the returned value (e.g. VG(nu = 1.5, theta = 0.3) at sigma = 1.0);
+   (3) a value below the field's domain at an end of ANY interval or as the returned value (setter ValueError; VG sigma = 0: division by zero). *)
 Lemma default_calibration_must_raise_all : forall (fsqrt fgamma : Q -> Q) (fpow : Q -> Q -> Q),
-  (forall price dflt h p market xs x y, y < 0 -> In y (x :: xs) ->
-     gen_run_default_calibration HemRec HemField hem_set hem_initialisation_checked price dflt h p dc_hem_field market xs x = None)
-  /\ (forall price dflt h p market xs x y, y < 0 -> In y (x :: xs) ->
-     gen_run_default_calibration MertonRec MertonField merton_set merton_initialisation_checked price dflt h p dc_merton_field market xs x = None)
-  /\ (forall price dflt h p market xs x y, y <= 0 -> In y (x :: xs) ->
-     gen_run_default_calibration VgRec VgField vg_set (vg_initialisation_checked fsqrt) price dflt h p dc_vg_field market xs x = None)
-  /\ (forall price dflt h p market xs x y, y <= 0 -> In y (x :: xs) ->
-     gen_run_default_calibration CgmyRec CgmyField cgmy_set (cgmy_initialisation_checked fgamma fpow) price dflt h p dc_cgmy_field market xs x = None).
+  ((forall price model_ok dflt h p market xs x ra rb,
+     let r := load HemRec dflt h p in hem_valid r = true /\ hem_defined r = true ->
+     hem_construct dc_hem_lo (h_p r) (h_eta1 r) (h_eta2 r) (h_intensity r) = Built ra -> hem_construct dc_hem_hi (h_p r) (h_eta1 r) (h_eta2 r) (h_intensity r) = Built rb -> 0 < (price ra - market) * (price rb - market) ->
+     gen_run_default_calibration HemRec HemField hem_set hem_initialisation_checked price dflt model_ok h p dc_hem_field (dc_hem_lo, dc_hem_hi) market xs x = None)
+  /\ (forall price model_ok dflt h p market xs x ra rb,
+     let r := load MertonRec dflt h p in merton_valid r = true ->
+     merton_construct (m_sigma r) dc_merton_lo (m_sigma_j r) (m_intensity r) = Built ra -> merton_construct (m_sigma r) dc_merton_hi (m_sigma_j r) (m_intensity r) = Built rb -> 0 < (price ra - market) * (price rb - market) ->
+     gen_run_default_calibration MertonRec MertonField merton_set merton_initialisation_checked price dflt model_ok h p dc_merton_field (dc_merton_lo, dc_merton_hi) market xs x = None)
+  /\ (forall price model_ok dflt h p market xs x ra rb,
+     let r := load VgRec dflt h p in vg_valid r = true /\ vg_defined r = true ->
+     vg_construct fsqrt dc_vg_lo (v_nu r) (v_theta r) = Built ra -> vg_construct fsqrt dc_vg_hi (v_nu r) (v_theta r) = Built rb -> 0 < (price ra - market) * (price rb - market) ->
+     gen_run_default_calibration VgRec VgField vg_set (vg_initialisation_checked fsqrt) price dflt model_ok h p dc_vg_field (dc_vg_lo, dc_vg_hi) market xs x = None)
+  /\ (forall price model_ok dflt h p market xs x ra rb,
+     let r := load CgmyRec dflt h p in cgmy_valid r = true ->
+     cgmy_construct fgamma fpow dc_cgmy_lo (c_g r) (c_m r) (c_y r) = Built ra -> cgmy_construct fgamma fpow dc_cgmy_hi (c_g r) (c_m r) (c_y r) = Built rb -> 0 < (price ra - market) * (price rb - market) ->
+     gen_run_default_calibration CgmyRec CgmyField cgmy_set (cgmy_initialisation_checked fgamma fpow) price dflt model_ok h p dc_cgmy_field (dc_cgmy_lo, dc_cgmy_hi) market xs x = None))
+  /\ ((forall price model_ok dflt h p market xs x y ry, (p < length h)%nat ->
+     let r := load HemRec dflt h p in hem_valid r = true /\ hem_defined r = true ->
+     y = dc_hem_lo \/ y = dc_hem_hi \/ (y = x /\ dc_hem_lo <= x /\ x <= dc_hem_hi) -> hem_construct y (h_p r) (h_eta1 r) (h_eta2 r) (h_intensity r) = Built ry -> model_ok ry = false ->
+     gen_run_default_calibration HemRec HemField hem_set hem_initialisation_checked price dflt model_ok h p dc_hem_field (dc_hem_lo, dc_hem_hi) market xs x = None)
+  /\ (forall price model_ok dflt h p market xs x y ry, (p < length h)%nat ->
+     let r := load MertonRec dflt h p in merton_valid r = true ->
+     y = dc_merton_lo \/ y = dc_merton_hi \/ (y = x /\ dc_merton_lo <= x /\ x <= dc_merton_hi) -> merton_construct (m_sigma r) y (m_sigma_j r) (m_intensity r) = Built ry -> model_ok ry = false ->
+     gen_run_default_calibration MertonRec MertonField merton_set merton_initialisation_checked price dflt model_ok h p dc_merton_field (dc_merton_lo, dc_merton_hi) market xs x = None)
+  /\ (forall price model_ok dflt h p market xs x y ry, (p < length h)%nat ->
+     let r := load VgRec dflt h p in vg_valid r = true /\ vg_defined r = true ->
+     y = dc_vg_lo \/ y = dc_vg_hi \/ (y = x /\ dc_vg_lo <= x /\ x <= dc_vg_hi) -> vg_construct fsqrt y (v_nu r) (v_theta r) = Built ry -> model_ok ry = false ->
+     gen_run_default_calibration VgRec VgField vg_set (vg_initialisation_checked fsqrt) price dflt model_ok h p dc_vg_field (dc_vg_lo, dc_vg_hi) market xs x = None)
+  /\ (forall price model_ok dflt h p market xs x y ry, (p < length h)%nat ->
+     let r := load CgmyRec dflt h p in cgmy_valid r = true ->
+     y = dc_cgmy_lo \/ y = dc_cgmy_hi \/ (y = x /\ dc_cgmy_lo <= x /\ x <= dc_cgmy_hi) -> cgmy_construct fgamma fpow y (c_g r) (c_m r) (c_y r) = Built ry -> model_ok ry = false ->
+     gen_run_default_calibration CgmyRec CgmyField cgmy_set (cgmy_initialisation_checked fgamma fpow) price dflt model_ok h p dc_cgmy_field (dc_cgmy_lo, dc_cgmy_hi) market xs x = None))
+  /\ ((forall price model_ok dflt h p a b market xs x y, y < 0 -> y = a \/ y = b \/ y = x ->
+     gen_run_default_calibration HemRec HemField hem_set hem_initialisation_checked price dflt model_ok h p dc_hem_field (a, b) market xs x = None)
+  /\ (forall price model_ok dflt h p a b market xs x y, y < 0 -> y = a \/ y = b \/ y = x ->
+     gen_run_default_calibration MertonRec MertonField merton_set merton_initialisation_checked price dflt model_ok h p dc_merton_field (a, b) market xs x = None)
+  /\ (forall price model_ok dflt h p a b market xs x y, y <= 0 -> y = a \/ y = b \/ y = x ->
+     gen_run_default_calibration VgRec VgField vg_set (vg_initialisation_checked fsqrt) price dflt model_ok h p dc_vg_field (a, b) market xs x = None)
+  /\ (forall price model_ok dflt h p a b market xs x y, y <= 0 -> y = a \/ y = b \/ y = x ->
+     gen_run_default_calibration CgmyRec CgmyField cgmy_set (cgmy_initialisation_checked fgamma fpow) price dflt model_ok h p dc_cgmy_field (a, b) market xs x = None)).
 Proof.
-  intros. repeat apply conj; intros price dflt h p market xs x y Hy Hin; eapply gen_default_refused; try exact Hin; intro r.
-  - rewrite hem_assign_spec. destruct (hem_guard dc_hem_field y) eqn:G; [|reflexivity].
-    apply (proj1 (hem_guard_spec y)) in G. lra.
-  - rewrite merton_assign_spec. destruct (merton_guard dc_merton_field y) eqn:G; [|reflexivity].
-    apply (proj1 (proj2 (merton_guard_spec y))) in G. lra.
-  - rewrite vg_assign_spec. destruct (vg_guard dc_vg_field y) eqn:G; [|reflexivity].
-    apply (proj1 (vg_guard_spec y)) in G. assert (E : y == 0) by lra.
-    destruct (vg_defined (vg_write dc_vg_field y r)) eqn:D; [|reflexivity].
-    apply vg_defined_spec in D. destruct D as [_ D]. exfalso. apply D. exact E.
-  - rewrite cgmy_assign_spec. destruct (cgmy_guard dc_cgmy_field y) eqn:G; [|reflexivity].
-    apply (proj1 (cgmy_guard_spec y)) in G. lra.
+  intros. split; [|split].
+  - repeat apply conj; intros price model_ok dflt h p market xs x ra rb r HI Ka Kb Hs.
+    + exact (gen_default_sign_error HemRec HemField hem_set hem_initialisation_checked price dflt model_ok hem_ok dc_hem_field dc_hem_lo dc_hem_hi (hem_ctor_with) (proj1 (hem_entry)) (fun r x y r1 => hem_assign_absorbs r dc_hem_field x y r1) (proj2 (hem_entry)) h p market xs x ra rb HI Ka Kb Hs).
+    + exact (gen_default_sign_error MertonRec MertonField merton_set merton_initialisation_checked price dflt model_ok merton_ok dc_merton_field dc_merton_lo dc_merton_hi (merton_ctor_with) (proj1 (merton_entry)) (fun r x y r1 => merton_assign_absorbs r dc_merton_field x y r1) (proj2 (merton_entry)) h p market xs x ra rb HI Ka Kb Hs).
+    + exact (gen_default_sign_error VgRec VgField vg_set (vg_initialisation_checked fsqrt) price dflt model_ok vg_ok dc_vg_field dc_vg_lo dc_vg_hi (vg_ctor_with fsqrt) (proj1 (vg_entry fsqrt)) (fun r x y r1 => vg_assign_absorbs fsqrt r dc_vg_field x y r1) (proj2 (vg_entry fsqrt)) h p market xs x ra rb HI Ka Kb Hs).
+    + exact (gen_default_sign_error CgmyRec CgmyField cgmy_set (cgmy_initialisation_checked fgamma fpow) price dflt model_ok cgmy_ok dc_cgmy_field dc_cgmy_lo dc_cgmy_hi (cgmy_ctor_with fgamma fpow) (proj1 (cgmy_entry fgamma fpow)) (fun r x y r1 => cgmy_assign_absorbs fgamma fpow r dc_cgmy_field x y r1) (proj2 (cgmy_entry fgamma fpow)) h p market xs x ra rb HI Ka Kb Hs).
+  - repeat apply conj; intros price model_ok dflt h p market xs x y ry Hp r HI Hy K G.
+    + exact (gen_default_guard_error HemRec HemField hem_set hem_initialisation_checked price dflt model_ok hem_ok dc_hem_field dc_hem_lo dc_hem_hi (hem_ctor_with) (proj1 (hem_entry)) (fun r x y r1 => hem_assign_absorbs r dc_hem_field x y r1) (proj2 (hem_entry)) h p market xs x y ry Hp HI Hy K G).
+    + exact (gen_default_guard_error MertonRec MertonField merton_set merton_initialisation_checked price dflt model_ok merton_ok dc_merton_field dc_merton_lo dc_merton_hi (merton_ctor_with) (proj1 (merton_entry)) (fun r x y r1 => merton_assign_absorbs r dc_merton_field x y r1) (proj2 (merton_entry)) h p market xs x y ry Hp HI Hy K G).
+    + exact (gen_default_guard_error VgRec VgField vg_set (vg_initialisation_checked fsqrt) price dflt model_ok vg_ok dc_vg_field dc_vg_lo dc_vg_hi (vg_ctor_with fsqrt) (proj1 (vg_entry fsqrt)) (fun r x y r1 => vg_assign_absorbs fsqrt r dc_vg_field x y r1) (proj2 (vg_entry fsqrt)) h p market xs x y ry Hp HI Hy K G).
+    + exact (gen_default_guard_error CgmyRec CgmyField cgmy_set (cgmy_initialisation_checked fgamma fpow) price dflt model_ok cgmy_ok dc_cgmy_field dc_cgmy_lo dc_cgmy_hi (cgmy_ctor_with fgamma fpow) (proj1 (cgmy_entry fgamma fpow)) (fun r x y r1 => cgmy_assign_absorbs fgamma fpow r dc_cgmy_field x y r1) (proj2 (cgmy_entry fgamma fpow)) h p market xs x y ry Hp HI Hy K G).
+  - repeat apply conj; intros price model_ok dflt h p a b market xs x y Hy Hin; eapply gen_default_refused; try exact Hin; intro r.
+    + rewrite hem_assign_spec. destruct (hem_guard dc_hem_field y) eqn:G; [|reflexivity].
+      apply (proj1 (hem_guard_spec y)) in G. lra.
+    + rewrite merton_assign_spec. destruct (merton_guard dc_merton_field y) eqn:G; [|reflexivity].
+      apply (proj1 (proj2 (merton_guard_spec y))) in G. lra.
+    + rewrite vg_assign_spec. destruct (vg_guard dc_vg_field y) eqn:G; [|reflexivity].
+      apply (proj1 (vg_guard_spec y)) in G. assert (E : y == 0) by lra.
+      destruct (vg_defined (vg_write dc_vg_field y r)) eqn:D; [|reflexivity].
+      apply vg_defined_spec in D. destruct D as [_ D]. exfalso. apply D. exact E.
+    + rewrite cgmy_assign_spec. destruct (cgmy_guard dc_cgmy_field y) eqn:G; [|reflexivity].
+      apply (proj1 (cgmy_guard_spec y)) in G. lra.
 Qed.
 
-(* non-vacuity: the generated program run on a concrete heap -- a HEM object after a history, three trial values inside the table's
-   interval, returned value 1/4: a new object with sigma = 1/4, the input kept; a trial value -1/4 aborts; VG at sigma = 0 aborts *)
+(* non-vacuity: the generated program run on concrete heaps.  price := sigma (so the objective is sigma - market), HEM object after a history.
+   market 1/2: end values -1/2 and 1/2, sign change, trial 1/2, returned 1/4: a new object with sigma = 1/4, input kept, working copy at 1/2;
+   market 2: end values -2 and -1: brentq's ValueError; a constructor refusing sigma > 1/2: raises at the upper end; market 0: the lower end
+   is a zero, brentq returns without evaluating further trial values (a refused one in xs is never assigned); an interval starting below
+   the domain raises; VG: an interval starting at sigma = 0 divides by zero, the table's interval does not *)
 Lemma nonvacuous_c20_calib :
   match hem_construct (1#20) (3#5) 20 25 3 with
   | Built r0 =>
       let r := hem_run [(HEta1, 10); (HP, -1); (HP, 1#2)] r0 in
+      let run := gen_run_default_calibration HemRec HemField hem_set hem_initialisation_checked h_sigma r0 in
       hem_valid r = true /\ hem_defined r = true
-      /\ (match gen_run_default_calibration HemRec HemField hem_set hem_initialisation_checked h_xi r0 [r] 0 dc_hem_field 0 [dc_hem_lo; dc_hem_hi; 1#2] (1#4) with
+      /\ (match run (fun _ => true) [r] 0%nat dc_hem_field (dc_hem_lo, dc_hem_hi) (1#2) [1#2] (1#4) with
           | Some (h', q) => Nat.eqb q 2 && Qeq_bool (h_sigma (load HemRec r0 h' 0)) (1#20) && Qeq_bool (h_sigma (load HemRec r0 h' 1)) (1#2)
                             && Qeq_bool (h_sigma (load HemRec r0 h' q)) (1#4) && Qeq_bool (h_eta1 (load HemRec r0 h' q)) 10
           | None => false end = true)
-      /\ gen_run_default_calibration HemRec HemField hem_set hem_initialisation_checked h_xi r0 [r] 0 dc_hem_field 0 [dc_hem_lo; -(1#4)] (1#4) = None
+      /\ run (fun _ => true) [r] 0%nat dc_hem_field (dc_hem_lo, dc_hem_hi) 2 [1#2] (1#4) = None
+      /\ run (fun r' => Qle_bool (h_sigma r') (1#2)) [r] 0%nat dc_hem_field (dc_hem_lo, dc_hem_hi) (1#2) [1#2] (1#4) = None
+      /\ (match run (fun _ => true) [r] 0%nat dc_hem_field (dc_hem_lo, dc_hem_hi) 0 [-(1#4)] 0 with
+          | Some (h', q) => Nat.eqb q 2 && Qeq_bool (h_sigma (load HemRec r0 h' 1)) 1 && Qeq_bool (h_sigma (load HemRec r0 h' q)) 0
+          | None => false end = true)
+      /\ run (fun _ => true) [r] 0%nat dc_hem_field (dc_hem_lo, dc_hem_hi) (1#2) [-(1#4)] (1#4) = None
+      /\ run (fun _ => true) [r] 0%nat dc_hem_field (-(1#4), dc_hem_hi) (1#2) [] (1#4) = None
   | _ => False
   end
   /\ match vg_construct (fun x => x) (1#10) (1#16) (1#10) with
      | Built v0 => vg_valid v0 = true /\ vg_defined v0 = true
-         /\ gen_run_default_calibration VgRec VgField vg_set (vg_initialisation_checked (fun x => x)) v_c v0 [v0] 0 dc_vg_field 0 [0; 1] (1#4) = None
-         /\ (match gen_run_default_calibration VgRec VgField vg_set (vg_initialisation_checked (fun x => x)) v_c v0 [v0] 0 dc_vg_field 0 [dc_vg_lo; 1] (1#4) with
+         /\ gen_run_default_calibration VgRec VgField vg_set (vg_initialisation_checked (fun x => x)) v_sigma v0 (fun _ => true) [v0] 0%nat dc_vg_field (0, 1) (1#2) [] (1#4) = None
+         /\ (match gen_run_default_calibration VgRec VgField vg_set (vg_initialisation_checked (fun x => x)) v_sigma v0 (fun _ => true) [v0] 0%nat dc_vg_field (dc_vg_lo, dc_vg_hi) (1#2) [1#2] (1#4) with
              | Some (h', q) => Qeq_bool (v_sigma (load VgRec v0 h' q)) (1#4) | None => false end = true)
      | _ => False
      end.
